@@ -124,9 +124,11 @@ def run_property(pid, tier, seed):
         'violations': len(unlisted),
     }
     ev['coverage'].update(jsonable({k: v for k, v in ctx.extra.items() if not k.startswith('_')}))
-    if ctx.model.cmd is not None:
-        ev['coverage']['states'] = len(ctx.model.cmd.store) + len(ctx.model.evt.store)
-        ev['coverage']['transitions'] = len(ctx.model.cmd.transitions) + len(ctx.model.evt.transitions)
+    exs = [e for e in (ctx.model.cmd, ctx.model.evt) if e is not None]
+    if exs:
+        ev['coverage']['states'] = sum(len(e.store) for e in exs)
+        ev['coverage']['transitions'] = sum(len(e.transitions) for e in exs)
+        ev['coverage']['machines'] = [e.which for e in exs]
     with open(evfile, 'w') as fh:
         json.dump(ev, fh, indent=1)
     for f in unlisted:
